@@ -7,6 +7,9 @@ def parseMetric (s : String) : Except String Metric :=
   match s with
   | "cd" => .ok .cd
   | "pcd" => .ok .pcd
+  | "pruning-cd" => .ok .pcd
+  | "callable-cd" => .ok .cd
+  | "instance-cd" => .ok .cd
   | "ce" => .ok .ce
   | "mnn" => .ok .mnn
   | "2nn" => .ok .twonn
@@ -48,11 +51,15 @@ end Pymoode.Drv
 namespace Pymoode.Drv
 open Pymoode Pymoode.Proto
 
-def crowdOne (metric : Metric) (compiled wrapped : Bool) (nRemove : Int) (f : List (List Float)) : String :=
+def crowdOne (label : String) (metric : Metric) (compiled wrapped : Bool) (nRemove : Int) (f : List (List Float)) : String :=
   let nObj := match f with | [] => 0 | r :: _ => r.length
   let neg (x : Float) : Float := -x
   let (d, errs) :=
-    if wrapped then crowding Float.log2 neg metric compiled f nObj (Float.ofNat nObj) nRemove
+    if wrapped then
+      if label == "callable-cd" then
+        -- a user callable is wrapped with duplicate filtering
+        crowdingCallable (fun sub => rawMetric Float.log2 neg .cd compiled sub nObj (Float.ofNat nObj) nRemove) f nObj
+      else crowding Float.log2 neg metric compiled f nObj (Float.ofNat nObj) nRemove
     else rawMetric Float.log2 neg metric compiled f nObj (Float.ofNat nObj) nRemove
   let sites := errs.toList.map fun (e : Oob) => (e.site.replace " " "_") ++ s!"@{e.i},{e.j}"
   s!"{listOut (fun (x : Ext Float) => fOut x.toFloat) d} {sites.length} {String.intercalate " " sites}"
@@ -67,6 +74,6 @@ def compCrowd3 : P String := do
   | .ok metric =>
     let nObj := match f with | [] => 0 | r :: _ => r.length
     let ties := (metric == .mnn || metric == .twonn) && hasDistanceTies f nObj
-    return s!"ok {bOut ties} | {crowdOne metric true false nRemove f} | {crowdOne metric false false nRemove f} | {crowdOne metric true true nRemove f} | {crowdOne metric false true nRemove f}"
+    return s!"ok {bOut ties} | {crowdOne label metric true false nRemove f} | {crowdOne label metric false false nRemove f} | {crowdOne label metric true true nRemove f} | {crowdOne label metric false true nRemove f}"
 
 end Pymoode.Drv
